@@ -110,3 +110,18 @@ Fixpoint set_at (v : pyval) (cp : list pyval) (x : pyval) : option pyval :=
       end
   end.
 
+
+(* the node at a concrete path (Python subscripting along the path) *)
+Fixpoint get_at (v : pyval) (cp : list pyval) : option pyval :=
+  match cp with
+  | [] => Some v
+  | k :: r =>
+      match v with
+      | VDict d => match dict_look k d with Some x => get_at x r | None => None end
+      | VList l => match norm_index l k with
+                   | Some i => match nth_error l i with Some x => get_at x r | None => None end
+                   | None => None
+                   end
+      | _ => None
+      end
+  end.
